@@ -398,7 +398,29 @@ func c03Continue(m *Sim, p *scripted, spec *c03Spec, honestBefore map[uint16]int
 		a = m.As[0]
 	}
 	if a == nil {
-		// handshake bases: an honest handshake must still be possible for a client in cookieWait/cookieEchoed
+		// handshake bases: a client that was in COOKIE-WAIT / COOKIE-ECHOED when the hostile
+		// packets arrived either gave up with an error, got established, or is still trying:
+		// in the last case its handshake timer must still be alive (the packet it is waiting
+		// for may simply have been lost), i.e. it retransmits INIT / COOKIE-ECHO
+		if p.dialT != nil && !p.dialT.Done && !p.cfg.Server {
+			ev0 := len(m.W.events)
+			again := m.WaitUntil("handshake-retransmission", 10*time.Second, func() bool {
+				if p.dialT.Done {
+					return true
+				}
+				for _, ev := range m.W.events[ev0:] {
+					if ev.Kind == "send" && ev.From == 0 && ev.Pkt.dec != nil && len(ev.Pkt.dec.Chunks) > 0 {
+						if t := ev.Pkt.dec.Chunks[0].Typ; t == wINIT || t == wCOOKIEECHO {
+							return true
+						}
+					}
+				}
+				return false
+			})
+			if !again {
+				m.Failf("hostile.hang", "after the hostile packets the connecting endpoint neither finished nor retransmitted its handshake packet within 10 s: the connect call hangs (no handshake timer running)")
+			}
+		}
 		return
 	}
 	p.a = a
